@@ -345,3 +345,48 @@ def run(ctx: Context) -> None:  # noqa: F811
 
     ctx.rep.rule('C05.R8', "the convenience API lets go of the response on every path: request() closes it in a finally after reading, stream() yields it inside try/finally, Response.aclose() reaches the stream's close")
     support.api_releases(ctx, 'C05.R8')
+
+
+def _assignment_consumed_or_undone(ctx: Context, rule: str = "C05.R9") -> None:
+    """From the moment the request is in the queue ANOTHER task's assignment pass may hand it a connection - possibly one it
+    has just created - at any time (`assign_to_connection` is called from the pass, not from the waiter).  The request
+    routine must therefore never leave with the assignment unread: either it passes the connection to
+    `connection.handle_*request` (the connection's own typestate rules take over), or it inspects / undoes the assignment
+    (`pool_request.connection`, `clear_connection()`) on its way out.  A fault point (cancellation, PoolTimeout) after the
+    queue append whose exception reaches the exit without such a node abandons a connection that was created for this
+    request and never started: not idle, not available, not expired, not closed - the slot is lost for good."""
+    rep = ctx.rep
+    for tree, N in trees(ctx):
+        f = N.func("connection_pool", "AsyncConnectionPool.handle_async_request")
+        cfg = ctx.cfg(f)
+        app = [n for n in cfg.nodes if n.kind == "stmt" and node_calls(n, lambda c: norm(c.func) == "self._requests.append")]
+        if not app:
+            continue
+        uses = lambda n: node_calls(n, lambda c: (chain(c.func) or [""])[-1] in ("handle_async_request", "handle_request") and (chain(c.func) or [""])[0] == "connection")
+        reads = lambda n: n.ast is not None and any(
+            (isinstance(x, ast.Attribute) and norm(x) == "pool_request.connection") or
+            (isinstance(x, ast.Call) and norm(x.func) == "pool_request.clear_connection") for x in ast.walk(n.ast if not isinstance(n.ast, ast.withitem) else n.ast.context_expr)
+            if not isinstance(n.ast, (ast.ExceptHandler, ast.Try)))
+        stop = lambda n: uses(n) or reads(n)
+        reach = cfg.reachable([e.dst for e in app[0].succ if e.kind != "exc"], follow=lambda e: e.kind != "exc")
+        for kind in ("Cancelled", "Exception"):
+            bad = [n for n in cfg.nodes if n.id in reach and not uses(n) and n.kind not in ("raise", "reraise") and real_sources(n)
+                   and escapes_without(cfg, n, stop, kind)]
+            rep.ob(rule, fkey(tree, f, f"assignment-abandoned:{kind}"), not bad, where(f, bad[0].ast if bad else app[0].ast),
+                   f"no {kind} after the queue append leaves the routine with the assignment unread" if not bad else
+                   f"{kind} at {witness(bad)} leaves the pool's request routine without ever reading `pool_request.connection`: a connection that another task's assignment pass created for "
+                   "this request in the meantime is never started and never looked at again - it stays in the pool 'CONNECTING' forever and its slot is lost",
+                   witness(bad))
+
+
+_core_run2 = run
+
+
+def run(ctx: Context) -> None:  # noqa: F811
+    _core_run2(ctx)
+    ctx.rep.rule("C05.R9", "an abandoned waiter never leaves behind a connection that was created for it: the assignment is consumed or inspected on every exit")
+    _assignment_consumed_or_undone(ctx)
+    from . import backend
+
+    ctx.rep.rule('C05.R10', 'the waiter is told the truth: the events report PoolTimeout only when the wait really timed out (a request that was given a connection is not failed)')
+    backend.primitives(ctx, 'C05.R10', ['AsyncEvent', 'Event'])
